@@ -600,7 +600,24 @@ func (*c11) Oracle(ci, oi any) []hx.Violation {
 		if c.Kind == "corpus" && strings.HasPrefix(m, "global-not-delivered-to:") && strings.Contains(m, ".sub/") {
 			sig = "C11:dotted-subchart-name-empty-scope"
 		}
-		vs = append(vs, hx.Violation{Sig: sig, What: "isolation / global flow broken on the implementation: " + m})
+		what := "isolation / global flow broken on the implementation: "
+		switch strings.SplitN(m, ":", 2)[0] {
+		case "import-values-leak-into":
+			what = "import-values of one dependency changed what another subchart sees although nothing was imported onto its key or onto global: "
+		case "disabled-dependency-imports":
+			what = "the import-values of a DISABLED dependency change the values somebody sees (a disabled dependency contributes no values): "
+		case "import-values-not-at-parent-path":
+			what = "an imported value is not seen at the named parent path although nothing else defines that key: "
+		case "chart-own-value-lost":
+			what = "a value of the root chart's own values.yaml that the user does not override is not what the root sees (imported values must not win over the parent's own): "
+		case "user-value-lost":
+			what = "a user-supplied value for a chart is not what that chart sees (chart defaults or imported values won): "
+		case "ancestor-global-does-not-win-in":
+			what = "a global set by an ancestor (user top level / first-level section) is not what a descendant sees although the same key is set closer to it: "
+		case "deep-key-visible-in", "deep-key-not-delivered", "deep-key-changes-tree":
+			what = "a value destined for the deepest rendered chart is seen by a chart outside its line of ancestors, or not delivered: "
+		}
+		vs = append(vs, hx.Violation{Sig: sig, What: what + m})
 	}
 	if len(obs.Leaks) > 0 {
 		vs = append(vs, hx.Violation{Sig: "C11:dependency-values-under-unkept-name",
@@ -1354,14 +1371,14 @@ func c11Locs(c c11Case, tree *c11Node) (locs []c11Loc, shared map[*vChart]bool) 
 	return locs, shared
 }
 
-func cloneChart(c *vChart) *vChart {
+func c11CloneChart(c *vChart) *vChart {
 	b, _ := json.Marshal(c)
 	var o vChart
 	json.Unmarshal(b, &o)
 	return &o
 }
 
-func chartAtIdx(c *vChart, idx []int) *vChart {
+func c11ChartAtIdx(c *vChart, idx []int) *vChart {
 	for _, i := range idx {
 		if i < 0 || i >= len(c.Charts) {
 			return nil
@@ -1371,14 +1388,14 @@ func chartAtIdx(c *vChart, idx []int) *vChart {
 	return c
 }
 
-func depKey(d vDep) string {
+func c11DepKey(d vDep) string {
 	if d.Alias != "" {
 		return d.Alias
 	}
 	return d.Name
 }
 
-func hasImports(c *vChart) bool {
+func c11HasImports(c *vChart) bool {
 	for _, d := range c.Deps {
 		if len(d.Imports) > 0 {
 			return true
@@ -1389,13 +1406,13 @@ func hasImports(c *vChart) bool {
 
 // relatedKeys: every key of c's values that may be a subchart's section: names of the chart
 // directories and aliases of the requirements.
-func relatedKeys(c *vChart) map[string]bool {
+func c11RelatedKeys(c *vChart) map[string]bool {
 	m := map[string]bool{}
 	for _, s := range c.Charts {
 		m[s.Name] = true
 	}
 	for _, d := range c.Deps {
-		m[depKey(d)] = true
+		m[c11DepKey(d)] = true
 		m[d.Name] = true
 	}
 	return m
@@ -1404,13 +1421,13 @@ func relatedKeys(c *vChart) map[string]bool {
 // importLanding: a superset of the top-level keys under which requirement r of chart x can put
 // imported values, computed from the description alone; ok=false when it cannot be bounded
 // simply (the child imports itself, paths through globals or the child's own subcharts, bad entries).
-func importLanding(x *vChart, r vDep) (keys map[string]bool, ok bool) {
+func c11ImportLanding(x *vChart, r vDep) (keys map[string]bool, ok bool) {
 	child := x.child(r.Name)
-	if child == nil || hasImports(child) {
+	if child == nil || c11HasImports(child) {
 		return nil, false
 	}
 	keys = map[string]bool{}
-	rel := relatedKeys(child)
+	rel := c11RelatedKeys(child)
 	for _, iv := range r.Imports {
 		var cpath []string
 		parent := "."
@@ -1434,7 +1451,7 @@ func importLanding(x *vChart, r vDep) (keys map[string]bool, ok bool) {
 			keys[strings.Split(parent, ".")[0]] = true
 			continue
 		}
-		for _, src := range []map[string]any{child.Values, sectionOf(x.Values, depKey(r))} {
+		for _, src := range []map[string]any{child.Values, c11SectionOf(x.Values, c11DepKey(r))} {
 			if t, ok := lookupPath(src, cpath); ok {
 				if m, ok := t.(map[string]any); ok {
 					for k := range m {
@@ -1447,12 +1464,12 @@ func importLanding(x *vChart, r vDep) (keys map[string]bool, ok bool) {
 	return keys, true
 }
 
-func sectionOf(m map[string]any, k string) map[string]any {
+func c11SectionOf(m map[string]any, k string) map[string]any {
 	s, _ := m[k].(map[string]any)
 	return s
 }
 
-func isPlainLeaf(v any) bool {
+func c11IsPlainLeaf(v any) bool {
 	if v == nil {
 		return false
 	}
@@ -1461,19 +1478,19 @@ func isPlainLeaf(v any) bool {
 }
 
 // leaves calls f for every plain (non-null, non-table) leaf below m
-func leaves(m map[string]any, prefix []string, f func(path []string, v any)) {
-	for _, k := range sortedAnyKeys(m) {
+func c11Leaves(m map[string]any, prefix []string, f func(path []string, v any)) {
+	for _, k := range c11SortedAnyKeys(m) {
 		v := m[k]
 		p := append(append([]string{}, prefix...), k)
 		if sub, ok := v.(map[string]any); ok {
-			leaves(sub, p, f)
-		} else if isPlainLeaf(v) {
+			c11Leaves(sub, p, f)
+		} else if c11IsPlainLeaf(v) {
 			f(p, v)
 		}
 	}
 }
 
-func sortedAnyKeys(m map[string]any) []string {
+func c11SortedAnyKeys(m map[string]any) []string {
 	ks := make([]string, 0, len(m))
 	for k := range m {
 		ks = append(ks, k)
@@ -1483,7 +1500,7 @@ func sortedAnyKeys(m map[string]any) []string {
 }
 
 // definesPrefix: some prefix of path is a key chain present in m (so m says something about it)
-func definesPrefix(m map[string]any, path []string) bool {
+func c11DefinesPrefix(m map[string]any, path []string) bool {
 	cur := m
 	for i, s := range path {
 		v, ok := cur[s]
@@ -1502,7 +1519,7 @@ func definesPrefix(m map[string]any, path []string) bool {
 	return false
 }
 
-func sameViews(a, b c11Run, keep func(path string) bool) []string {
+func c11SameViews(a, b c11Run, keep func(path string) bool) []string {
 	var out []string
 	for p, v := range a.Rendered {
 		if !keep(p) {
@@ -1528,19 +1545,19 @@ func c11ImportChecks(c c11Case, base c11Run) []string {
 	for _, l := range locs {
 		x := l.desc
 		view, _ := base.Rendered[probe(l)].(map[string]any)
-		rel := relatedKeys(x)
+		rel := c11RelatedKeys(x)
 		// user-supplied values win over imported ones (and over every other chart value), at any depth
 		if view != nil {
 			sect := map[string]any(c.Vals)
 			for _, k := range l.keys {
-				sect = sectionOf(sect, k)
+				sect = c11SectionOf(sect, k)
 			}
-			for _, k := range sortedAnyKeys(sect) {
+			for _, k := range c11SortedAnyKeys(sect) {
 				if rel[k] || k == "global" {
 					continue
 				}
 				sub := map[string]any{k: sect[k]}
-				leaves(sub, nil, func(path []string, v any) {
+				c11Leaves(sub, nil, func(path []string, v any) {
 					if got, ok := lookupPath(view, path); !ok || !jsonEq(got, v) {
 						out = append(out, "user-value-lost:"+l.dir+":"+strings.Join(path, "."))
 					}
@@ -1549,12 +1566,12 @@ func c11ImportChecks(c c11Case, base c11Run) []string {
 		}
 		// the root's own values win over imported ones
 		if len(l.keys) == 0 && view != nil {
-			for _, k := range sortedAnyKeys(x.Values) {
+			for _, k := range c11SortedAnyKeys(x.Values) {
 				if rel[k] || k == "global" {
 					continue
 				}
-				leaves(map[string]any{k: x.Values[k]}, nil, func(path []string, v any) {
-					if definesPrefix(c.Vals, path) {
+				c11Leaves(map[string]any{k: x.Values[k]}, nil, func(path []string, v any) {
+					if c11DefinesPrefix(c.Vals, path) {
 						return
 					}
 					if got, ok := lookupPath(view, path); !ok || !jsonEq(got, v) {
@@ -1578,7 +1595,7 @@ func c11ImportChecks(c c11Case, base c11Run) []string {
 					continue
 				}
 				ancImports = true
-				lk, ok := importLanding(a, ar)
+				lk, ok := c11ImportLanding(a, ar)
 				if !ok || lk["global"] || lk[l.keys[i]] {
 					ancSafe = false
 				}
@@ -1595,22 +1612,22 @@ func c11ImportChecks(c c11Case, base c11Run) []string {
 				continue
 			}
 			budget--
-			cp := cloneChart(c.Chart)
-			chartAtIdx(cp, l.idx).Deps[ri].Imports = nil
+			cp := c11CloneChart(c.Chart)
+			c11ChartAtIdx(cp, l.idx).Deps[ri].Imports = nil
 			r2 := c11Pipeline(cp, c.Vals, nil)
-			if !kept[depKey(r)] {
+			if !kept[c11DepKey(r)] {
 				// a disabled dependency imports nothing: dropping its import-values changes no view
 				if r2.Stage != "ok" || !sameShape(base, r2) {
-					out = append(out, "disabled-dependency-imports:"+l.dir+":"+depKey(r))
-				} else if d := sameViews(base, r2, func(string) bool { return true }); len(d) > 0 {
-					out = append(out, "disabled-dependency-imports:"+l.dir+":"+depKey(r)+":"+d[0])
+					out = append(out, "disabled-dependency-imports:"+l.dir+":"+c11DepKey(r))
+				} else if d := c11SameViews(base, r2, func(string) bool { return true }); len(d) > 0 {
+					out = append(out, "disabled-dependency-imports:"+l.dir+":"+c11DepKey(r)+":"+d[0])
 				}
 				continue
 			}
 			if r2.Stage != "ok" || !sameShape(base, r2) {
 				continue
 			}
-			landing, ok := importLanding(x, r)
+			landing, ok := c11ImportLanding(x, r)
 			if !ok || !ancSafe {
 				continue
 			}
@@ -1622,13 +1639,13 @@ func c11ImportChecks(c c11Case, base c11Run) []string {
 					continue
 				}
 				under := l.dir + "/charts/" + ck + "/"
-				if d := sameViews(base, r2, func(p string) bool { return strings.HasPrefix(p, under) }); len(d) > 0 {
+				if d := c11SameViews(base, r2, func(p string) bool { return strings.HasPrefix(p, under) }); len(d) > 0 {
 					out = append(out, "import-values-leak-into:"+d[0])
 				}
 			}
 			// ... nor anywhere outside the importing chart's own line of ancestors
 			if !ancImports && len(l.keys) > 0 {
-				if d := sameViews(base, r2, func(p string) bool {
+				if d := c11SameViews(base, r2, func(p string) bool {
 					if strings.HasPrefix(p, l.dir+"/") {
 						return false
 					}
@@ -1655,8 +1672,8 @@ func c11ImportChecks(c c11Case, base c11Run) []string {
 					ps, _ = t["parent"].(string)
 				}
 				child := x.child(r.Name)
-				_, sec := x.Values[depKey(r)]
-				_, usec := c.Vals[depKey(r)]
+				_, sec := x.Values[c11DepKey(r)]
+				_, usec := c.Vals[c11DepKey(r)]
 				if cs != "" && ps != "" && child != nil && !sec && !usec && !strings.HasPrefix(cs, "global") {
 					var ppath []string
 					if ps != "." {
@@ -1664,7 +1681,7 @@ func c11ImportChecks(c c11Case, base c11Run) []string {
 					}
 					if t, found := lookupPath(child.Values, strings.Split(cs, ".")); found {
 						if tm, isTable := t.(map[string]any); isTable {
-							leaves(tm, nil, func(path []string, v any) {
+							c11Leaves(tm, nil, func(path []string, v any) {
 								full := append(append([]string{}, ppath...), path...)
 								_, own := x.Values[full[0]]
 								_, usr := c.Vals[full[0]]
@@ -1818,7 +1835,7 @@ func c11Features(c c11Case, obs c11Obs) string {
 				}
 			}
 			if len(r.Imports) > 0 {
-				if ch := x.child(r.Name); ch != nil && hasImports(ch) {
+				if ch := x.child(r.Name); ch != nil && c11HasImports(ch) {
 					nested = true
 				}
 			}
@@ -1965,7 +1982,7 @@ func (g *c11Gen) impRequirements(c *vChart, depth int) {
 			if n == 2 || g.r.Intn(3) == 0 {
 				d.Alias = c11Aliases[s.Name][i%2]
 			}
-			key := depKey(d)
+			key := c11DepKey(d)
 			if used[key] {
 				continue
 			}
@@ -2037,7 +2054,7 @@ func (g *c11Gen) deepTree() *vChart {
 			if i == 0 && aliasAt[depth] {
 				d.Alias = c11Aliases[s.Name][g.r.Intn(2)]
 			}
-			key := depKey(d)
+			key := c11DepKey(d)
 			if g.r.Intn(3) > 0 {
 				d.Condition = []string{key + ".enabled", key + ".flag," + key + ".enabled", "global.gon", "flag", key + ".x.enabled"}[g.r.Intn(5)]
 			}
